@@ -144,3 +144,7 @@ pub use crate::types::*;
 // internal modules
 mod common;
 mod tcp;
+
+/// Verification hooks: production loops over caller-supplied in-memory I/O
+#[cfg(feature = "verif-hooks")]
+pub mod verif;
